@@ -83,3 +83,12 @@ PROPS["C15"] = {
   "components": {"real": REAL_LIB, "stub": ["clock_gettime (simulated: advances only by script)", "scan callback replies", "work counter = compiler-inserted basic-block callback in scanner.c scan.c exec.c re.c modules.c object.c notebook.c hash.c rules.c libyara.c arena.c and all module sources"]},
   "assumptions": ["time inside libcrypto (hash.*) is not instrumented and not measured", "delay after the deadline is measured in work between clock reads, not in wall time", "boundary semantics at exactly L-1/L/L+1 are not pinned (either outcome accepted) - only the error kind, monotonicity and enforcement far beyond the limit"],
 }
+
+PROPS["C09"] = {
+  "engine": "sim_threads", "variant": "cov", "level": "exploration",
+  "parts": [{}],
+  "budget_quick": 75, "budget_thorough": 1500,
+  "rule": "one run = 2-6 (1 in 12 runs: 8-32) real threads under the baton scheduler sharing one compiled rule set (strings, regexes, every module, externals); each thread runs 1-6 scans through its own scanner or the rules-level calls (mem, file, fd, 2-block iterator, mapped file truncated right after mapping => real SIGBUS inside the trycatch) with its own callback plan (ABORT/ERROR at message k), timeout, scanner-level externals and module data; some runs add a thread compiling unrelated (also failing) rules. Yield points: every basic block of scanner.c scan.c exec.c re.c modules.c object.c notebook.c hash.c rules.c libyara.c arena.c and the modules (compiler instrumentation), every allocation/free, callback, iterator call, clock read, mutex lock/unlock, sigaction and file syscall. Scheduling policy drawn per run: random quanta per yield class, PCT priorities with 1-4 change points on synchronisation yields, round robin, or one starved thread. Oracles: every scan == the same scan run alone; shared rule set memory unchanged (hash at 1 in 8 switches and at quiescence); libyara .data/.bss words written by two threads without a common simulated lock (diffed at every context switch); SIGBUS/SIGSEGV dispositions and handler use count restored; allocation/fd/mapping ledgers balanced; no deadlock, step budget. Non-trivial = at least one context switch; distinct = distinct context-switch sequence hash (from-task, to-task, yield kind).",
+  "components": {"real": REAL_LIB + ["real pthreads parked/released by the scheduler", "real SIGBUS delivery and yara's signal handler"], "stub": ["thread scheduling (baton)", "pthread_mutex_lock/unlock as seen by yara (simulated blocking)", "per-thread simulated clocks", "allocator ledger", "file syscalls ledger"]},
+  "assumptions": ["threads are serialised: two conflicting accesses inside one basic block of each thread cannot be interleaved; such races are visible only through the shared-state invariants", "the schedule is regenerated from (seed, run) on replay and verified through its hash rather than stored decision by decision", "a SIGBUS during rule evaluation (not the scan loop) is outside this check"],
+}
